@@ -26,7 +26,7 @@ RULES = {
           "under `frame_img is not <previous>` - in a `finally` for the fallible steps (convert, resize), before the rebinding for the composite branches",
     "R4": "iterator bookkeeping: the image handed to ImageIterator._animate is recorded (self._img) for close(); close() closes the generator then "
           "releases the image; __next__ closes on every handler; _animate sets image._seek_position before every render and back to 0 at each end of "
-          "pass; a generator object that owns an opened image is never discarded or overwritten without releasing that image; shared with C09.R5: frames served from ImageIterator's cache are validated against the current rendered size; size-dependent values of the image are read per frame in _animate, never once before the loops",
+          "pass; a generator object that owns an opened image is never discarded or overwritten without releasing that image; shared with C09.R5: frames served from ImageIterator's cache are validated against the current rendered size; size-dependent values of the image are read per frame in _animate, never once before the loops; no method of the image is called once before the frame loops",
     "R5": "plain files and temp files: every object returned by the builtin open() is used in a `with`; from_url creates the temp copy only after "
           "the instance was constructed successfully, and removes it again if writing fails; close() removes the copy iff the source is a URL and "
           "tolerates its absence; the temp directory is removed by an atexit hook",
